@@ -1,4 +1,5 @@
 import GixModel.Model.C14
+import GixModel.Spec.C14
 /-
 C09 (multi-pack index, byte level) — model of opening a `multi-pack-index` file and reading it.
 
@@ -20,7 +21,8 @@ Modelled at repo commits dd7bf297c (empty chunks / zero objects) and 8002babab (
 namespace GixModel.C09M
 open GixModel
 open GixModel.C09 (readU32 readU64 slice readFan lookupWith lookupPrefixWith cmpBytes HIGH_BIT Prefix PrefixRes)
-open GixModel.C14 (Chunk ChunkErr tocParse findChunk chunkBytes)
+open GixModel.C14 (Chunk ChunkErr tocParse findChunk chunkBytes tocBytes layout optChunk)
+open GixModel.C09 (be32 be64 Midx)
 
 inductive MErr where
   | corrupt | version | hash | chunk (e : ChunkErr) | missing | names | fanSize | size
@@ -156,6 +158,30 @@ def MidxFile.packAndOffsetAt (f : MidxFile) (i : Nat) : Option (Nat × Nat) :=
     else some (pk, v)
   | _, _ => none
 
+/-! ### the writer's byte layout (`write_from_index_paths`: `write_header`, `index_names::write` with its
+padding, `fanout::write`, `lookup::write`, `offsets::write`, `large_offsets::write`, `gix_chunk` table of contents) -/
+
+/-- `index_names::write`: every name followed by NUL, then zero padding up to a multiple of 4 -/
+def namesPayload (names : List Bytes) : Bytes :=
+  let b := names.flatMap (fun n => n ++ [0])
+  b ++ List.replicate (if b.length % 4 = 0 then 0 else 4 - b.length % 4) 0
+
+/-- `offsets::write`: pack index and 32-bit offset word per object -/
+def ooffPayload (x : Midx) : Bytes := ((x.packIds.zip x.ofs32).map (fun p => be32 p.1 ++ be32 p.2)).flatten
+
+/-- the chunks in the order they are planned -/
+def mChunks (names : List Bytes) (x : Midx) : List (Bytes × Bytes) :=
+  [(PNAM, namesPayload names), (OIDF, x.fan.flatMap be32), (OIDL, x.ids.flatten), (OOFF, ooffPayload x)]
+    ++ optChunk LOFF (x.large.map (fun l => l.flatMap be64))
+
+def mHeader (names : List Bytes) (x : Midx) : Bytes :=
+  [77, 73, 68, 88, 1, 1, UInt8.ofNat (mChunks names x).length, 0] ++ be32 names.length
+
+/-- the whole multi-pack-index file (`trailer` = the checksum, not modelled) -/
+def mWrite (names : List Bytes) (x : Midx) (trailer : Bytes) : Bytes :=
+  mHeader names x ++ (tocBytes (layout (mChunks names x) (12 + 12 * ((mChunks names x).length + 1)))
+    ++ (((mChunks names x).map (·.2)).flatten ++ trailer))
+
 /-! ### driver -/
 
 def showErr : MErr → String
@@ -182,6 +208,20 @@ def handle (args : List String) : String :=
       | none => "panic"
       | some (.error e) => showErr e
       | some (.ok f) => (C09.answers f.view qs).getD "bad-op"
+  | "midxw" :: np :: rest =>
+    -- the bytes the writer produces (without the trailing checksum) for the packs of a `midx` operation
+    match np.toNat? with
+    | none => "bad-op"
+    | some n =>
+      match C09.parsePacks? n rest with
+      | some (ps, []) =>
+        match C09.midxBuild ps with
+        | none => "panic"
+        | some x =>
+          let pad (k : Nat) : String := String.ofList (List.replicate (4 - (toString k).length) '0') ++ toString k
+          let names := (List.range n).map fun k => ("pack-" ++ pad k ++ ".idx").toUTF8.toList
+          hexOfBytes (mWrite names x [])
+      | _ => "bad-op"
   | _ => C09.handle args
 
 end GixModel.C09M
